@@ -134,6 +134,9 @@ public:
   inline sandbox_callback& operator=(sandbox_callback&& other)
   {
     if (this != &other) {
+      // Release the registration currently owned (if any) before taking over
+      // the other one
+      unregister();
       move_obj(std::forward<sandbox_callback>(other));
     }
     return *this;
